@@ -48,6 +48,15 @@ def run(rep):
 
 
 def exact(rep):
+    # networkx's VF2++ entry points compare ONE node label and no edge attribute at all: whatever is folded into that label, a permutation that
+    # keeps every atom's multiset of incident bond labels but maps a single bond onto a double bond is accepted as an automorphism
+    for q_, f_ in sorted(rep.repo.module(AM).funcs.items()):
+        if not q_.startswith("Automorphism."):
+            continue
+        for c_ in walk_local(f_.node, into_nested=True):
+            if isinstance(c_, ast.Call) and (call_name(c_) or "").startswith("vf2pp_"):
+                rep.ob("O11.1", "R2", f_, False, c_, "node and edge labels are compared on the configured keys (label-preserving automorphisms): VF2++ has no edge-label "
+                       "comparison, so bond orders do not constrain the enumerated permutations", node=c_)
     mk = rep.f(AM, "Automorphism._make_matcher")
     ss = M.sites(mk)
     rep.need("R2", len(ss), 1, "GraphMatcher in _make_matcher")
